@@ -183,6 +183,44 @@ def build(active_known=frozenset()):
         ),
     )
 
+    # ------------------------------------------------------------------ Var.set_value: what `set!` does to a dynamic Var
+    c = pack.contract("basilisp.lang.runtime:Var.set_value")
+    c.label = "dynamic Var"
+    c.param("self", OBJ(Var))
+    c.setup(setup)
+    c.requires("the Var is well-typed", lambda a: wf_var(a.eng, a.pre.st, a.self))
+    c.requires("the Var is dynamic", lambda a: z3.And(dynamic(a.pre.st, a.self), z3.Not(V.is_none(tl_of(a.pre.st, a.self)))))
+    c.modifies(lists=True)
+
+    def set_post(a):
+        old = stack(a.pre.st, a.pre.st, a.self)
+        n = z3.Length(old)
+        new = z3.If(n > 0, z3.Concat(z3.SubSeq(old, 0, n - 1), z3.Unit(a.v)), z3.Unit(a.v))
+        return a.post.st.lists == z3.Store(a.pre.st.lists, S(a.pre.st, a.self), new)
+
+    c.ensures("set! changes only the innermost binding of this Var (every outer binding and every other Var's stack stay); without a binding it establishes one", set_post)
+    c.ensures_on_raise("a set! that fails (the validator rejects the value) changes nothing: the innermost binding is still there", lambda a: a.post.st.lists == a.pre.st.lists)
+    c.replay(lambda m, ctx, ob: SET_REPLAY)
+    c.replay_without_model = True
+
+    # ------------------------------------------------------------------ Var.value: reading sees the innermost binding
+    c = pack.contract("basilisp.lang.runtime:Var.value")
+    c.param("self", OBJ(Var))
+    c.setup(setup)
+    c.requires("the Var is well-typed", lambda a: wf_var(a.eng, a.pre.st, a.self))
+    c.requires("a dynamic Var has its thread-local state", lambda a: z3.Implies(dynamic(a.pre.st, a.self), z3.Not(V.is_none(tl_of(a.pre.st, a.self)))))
+    c.raises()
+    c.modifies()
+
+    def value_post(a):
+        old = stack(a.pre.st, a.pre.st, a.self)
+        n = z3.Length(old)
+        return a.result == z3.If(z3.And(dynamic(a.pre.st, a.self), n > 0), old[n - 1], a.pre.field(a.self, "_root"))
+
+    c.ensures("reading a Var gives its innermost thread-local binding when it is dynamic and bound in this thread, and its root otherwise", value_post)
+    c.replay(lambda m, ctx, ob: SET_REPLAY)
+    c.replay_without_model = True
+
     # ------------------------------------------------------------------ push_thread_bindings
     def m_parts(a):
         inner = a.pre.field(a.m, "_inner")
@@ -477,6 +515,40 @@ def build(active_known=frozenset()):
     c.replay(rp_ctx)
     c.replay_without_model = True
     return pack
+
+
+SET_REPLAY = r'''
+from basilisp.lang import runtime as rt, symbol as sym, map as lmap
+ns = rt.Namespace.get_or_create(sym.symbol('c11-replay-set'))
+v = rt.Var.intern(ns, sym.symbol('*v*'), 0, dynamic=True)
+w = rt.Var.intern(ns, sym.symbol('*w*'), 'w-root', dynamic=True)
+v.set_validator(lambda x: isinstance(x, int) and x >= 0)
+bad = []
+def chk(desc, got, want):
+    if got != want:
+        bad.append('%s: expected %r, got %r' % (desc, want, got))
+try:
+    with rt.bindings({v: 10, w: 'w-outer'}):
+        with rt.bindings({v: 20}):
+            chk('innermost binding', v.value, 20)
+            v.set_value(21)
+            chk('after set!', v.value, 21)
+            chk('other Var after set!', w.value, 'w-outer')
+            try:
+                v.set_value(-1)
+                bad.append('validator did not reject -1')
+            except Exception:
+                pass
+            chk('innermost binding after a rejected set!', v.value, 21)
+        chk('outer binding after the inner form was left', v.value, 10)
+    chk('root after all forms were left', v.value, 0)
+    chk('other root', w.value, 'w-root')
+except BaseException as e:
+    bad.append('unexpected %s: %s' % (type(e).__name__, e))
+for line in bad[:10]:
+    print(line)
+print('REPRODUCED' if bad else 'not reproduced')
+'''
 
 
 PUSH_REPLAY = r'''
